@@ -219,8 +219,14 @@ fn lzip_prefix_members(orig: &[u8], mutant: &[u8], out_len: usize) -> bool {
             // the first lost member starts at s: its magic must be damaged in the mutant, and the retained members are
             // the original ones - except for their dictionary-size byte (offset 5 of each member), which no field of the
             // format protects: a larger dictionary decodes the same bytes
+            // (also a bit of the range coder's unread flush tail may differ without any field of the format noticing.)
+            // So: the retained part must either be the original bytes up to the dictionary-size bytes, or - standing
+            // alone as a file - decode to exactly the same `out_len` bytes, i.e. consist of members whose CRC-32, data
+            // size and member size all verify for the original data.
             let same_prefix = mutant.len() >= s
-                && (0..s).all(|k| mutant[k] == orig[k] || starts[..i].iter().any(|&st| k == st + 5));
+                && ((0..s).all(|k| mutant[k] == orig[k] || starts[..i].iter().any(|&st| k == st + 5))
+                    || matches!((lzip_decompress(&mutant[..s], &[4096], out_len + 16), lzip_decompress(&orig[..s], &[4096], out_len + 16)),
+                        (Outcome::Ok((a, _)), Outcome::Ok((b, _))) if a == b && a.len() == out_len));
             let magic_damaged = mutant.len() < s + 4 || &mutant[s..s + 4] != b"LZIP";
             let _ = idx;
             if same_prefix && magic_damaged {
